@@ -121,8 +121,12 @@ func numLit(r *rand.Rand) float64 { return []float64{0, 1, 2, 1.5, -1}[r.Intn(5)
 func randomMembers(r *rand.Rand, g *gen.Gen) *memberSet {
 	ms := &memberSet{obj: r.Intn(2) == 0, root: map[string]interface{}{}}
 	n := r.Intn(7)
+	long := r.Intn(12) == 0 // containers beyond the small sizes: 17..40 members, told apart by an extra member "n"
+	if long {
+		n = 17 + r.Intn(24)
+	}
 	seen := map[string]bool{}
-	for tries := 0; len(ms.members) < n && tries < 40; tries++ {
+	for tries := 0; len(ms.members) < n && tries < 400; tries++ {
 		var v interface{}
 		switch r.Intn(4) {
 		case 0:
@@ -141,6 +145,13 @@ func randomMembers(r *rand.Rand, g *gen.Gen) *memberSet {
 				}
 			}
 			v = o
+		}
+		if long {
+			o, ok := v.(map[string]interface{})
+			if !ok {
+				continue
+			}
+			o["n"] = float64(len(ms.members))
 		}
 		js := lib.JS(v)
 		if seen[js] {
